@@ -35,6 +35,36 @@ CHECKS = {
          "the code, EOL/trailing-blank variants with and without legend are recorded and TLC checks EolVariant of "
          "the inputs and SameDoc (elements, canvas, style text).",
          "TLA+ model checking of the row splitter + relational trace validation"),
+ "C12": ("model_checking", "4.C12",
+         "RefCanvas and Contained are invariants of the pipeline model on all small grids (TLC) and are evaluated "
+         "by the trace specification on every recorded document of a corpus with wide characters, quoted text at "
+         "the edges, legends and several scales. One recorded finding (quoted text invisible to the canvas).",
+         "TLA+ model checking of the final-state invariant + trace validation of recorded documents"),
+ "C09": ("model_checking", "4.C09",
+         "merge fixpoint and NoCollinearTouching are invariants of the pipeline model on all small grids (TLC); "
+         "for the code the run family (all line characters, lengths to 400) is checked against RunOracle and every "
+         "document of the mixed corpus against NoCollinearTouching, by TLC on the recorded documents.",
+         "TLA+ model checking of the merge stage + trace validation (run oracle, pairwise line predicate)"),
+ "C04": ("model_checking", "4.C04",
+         "TLC enumerates all short rows over 1-byte, 2-byte and double-width labels on the text-merge model with "
+         "RefTextRuns as invariant, each behaviour is replayed into the code; random multi-row label/drawing "
+         "mixtures are validated by the trace specification.",
+         "TLA+ model checking + TLC replay + trace validation"),
+ "C15": ("model_checking", "4.C15",
+         "TLC checks on all short rows that the code's blanking mechanism equals the reference and keeps every "
+         "outside character in its display column; for the code, (quoted, blanked) input pairs are recorded and "
+         "TLC checks the input relation and elements(a) = elements(b) + the verbatim quoted texts.",
+         "TLA+ model checking of the unquote stage + relational trace validation"),
+ "C08": ("model_checking", "4.C08",
+         "TLC checks the sink model (escaping function) for every string over one representative per character "
+         "class; for the code, payloads with unique markers in every channel are converted and TLC evaluates "
+         "VocabularyOnly and MarkerConfined on the expat-parsed document.",
+         "TLA+ model checking of the serialisation sinks + trace validation of parsed documents"),
+ "C02": ("exploration", "4.C02",
+         "the sink model is model-checked by TLC; for the code a Unicode sweep in every channel x include_* x "
+         "pretty/compressed is parsed by expat and TLC evaluates WellFormedDoc and the read-back of probe strings. "
+         "Exploration level: well-formedness is decided by expat per observed document.",
+         "Unicode sweep + expat + TLA+ acceptance predicates; TLA+ model of the escaping sinks"),
 }
 
 def main():
